@@ -431,8 +431,7 @@ false => vcount_filter(&edges, |e: &&&Arc<Edge<T, A>>| -> (b: bool)
     ensures
         !self.knows(node_name) ==> r.is_none(),
         // [C09.degree.degree_is_in_plus_out_when_directed_and_a_self_loop_adds_two]
-        self.knows(node_name) ==> r.is_some() && exists|op: Seq<T>, os: Seq<T>| #[trigger] orders_ok(*self, node_name, op, os)
-            && r.unwrap() == degree_of_list(*self, node_name, node_edge_list(*self, node_name, op, os)),
+        self.knows(node_name) ==> r.is_some() && is_degree_of(*self, node_name, r.unwrap()),
 //@ end
 
 //@ extract fn src/graph/degree.rs get_node_weighted_degree props=C09,C20 ty=Graph
@@ -538,3 +537,184 @@ vsum_weights(&edges)
             && r.unwrap() == wsum(out_edge_lists(*self, node_name, os).flatten()),
 //@ end
 }
+
+// ---- C09: degree centrality = degree / (n - 1) for every node ----
+// R-ext (A5): `v.iter().map(f).collect::<HashMap<K, V>>()` targets a local declaration ASSUMED to insert f(x) for every element in
+// order (a later pair with an equal key replaces the earlier one); the closure f stays in place and is verified
+pub open spec fn map_of_pairs<K, V>(pairs: Seq<(K, V)>) -> Map<K, V>
+    decreases pairs.len()
+{
+    if pairs.len() == 0 { Map::empty() } else { map_of_pairs(pairs.drop_last()).insert(pairs.last().0, pairs.last().1) }
+}
+#[verifier::external_body]
+pub fn viter_map_collect_map<X, K: Eq + Hash, V, F: FnMut(&X) -> (K, V)>(v: Vec<X>, f: F) -> (r: HashMap<K, V>)
+    requires forall|i: int| 0 <= i < v@.len() ==> call_requires(f, (&#[trigger] v@[i],)),
+    ensures exists|pairs: Seq<(K, V)>| pairs.len() == v@.len() && (forall|i: int| 0 <= i < v@.len() ==> call_ensures(f, (&v@[i],), #[trigger] pairs[i]))
+        && r@ == map_of_pairs(pairs),
+{ v.iter().map(f).collect() }
+
+// the degree get_node_degree reports for `name` (any admissible enumeration order of the adjacent names gives the same list length)
+pub open spec fn is_degree_of<T: Eq + PartialOrd + Send + Sync, A: Clone>(g: Graph<T, A>, name: T, d: usize) -> bool {
+    exists|op: Seq<T>, os: Seq<T>| #[trigger] orders_ok(g, name, op, os) && d == degree_of_list(g, name, node_edge_list(g, name, op, os))
+}
+// the map has exactly one entry per node; for n >= 2 it holds degree * (1 / (n - 1)), for n <= 1 it holds 1.0
+pub open spec fn degree_centrality_map<T: Eq + PartialOrd + Send + Sync, A: Clone>(g: Graph<T, A>, m: Map<T, f64>) -> bool {
+    &&& forall|k: T| #[trigger] m.contains_key(k) <==> g.knows(k)
+    &&& g.n() <= 1 ==> forall|k: T| #[trigger] m.contains_key(k) ==> m[k] == 1.0f64
+    &&& g.n() > 1 ==> forall|k: T| #[trigger] m.contains_key(k) ==> exists|d: usize| #[trigger] is_degree_of(g, k, d)
+            && m[k] == fmul(usize_to_f64(d), fdiv(1.0f64, fsub(usize_to_f64(g.n() as usize), 1.0f64)))
+}
+pub proof fn lemma_map_of_pairs_keys<K, V>(pairs: Seq<(K, V)>, k: K)
+    ensures map_of_pairs(pairs).contains_key(k) <==> exists|i: int| 0 <= i < pairs.len() && (#[trigger] pairs[i]).0 == k,
+    decreases pairs.len()
+{
+    if pairs.len() > 0 {
+        lemma_map_of_pairs_keys(pairs.drop_last(), k);
+        if map_of_pairs(pairs).contains_key(k) {
+            if pairs.last().0 == k {
+                assert(pairs[pairs.len() - 1].0 == k);
+            } else {
+                let i = choose|i: int| 0 <= i < pairs.drop_last().len() && (#[trigger] pairs.drop_last()[i]).0 == k;
+                assert(pairs[i].0 == k);
+            }
+        }
+        if exists|i: int| 0 <= i < pairs.len() && (#[trigger] pairs[i]).0 == k {
+            let i = choose|i: int| 0 <= i < pairs.len() && (#[trigger] pairs[i]).0 == k;
+            if i < pairs.len() - 1 { assert(pairs.drop_last()[i].0 == k); }
+        }
+    }
+}
+// with pairwise different keys the map holds, under the key of pair i, the value of pair i
+pub proof fn lemma_map_of_pairs_value<K, V>(pairs: Seq<(K, V)>, i: int)
+    requires
+        0 <= i < pairs.len(),
+        forall|a: int, b: int| 0 <= a < b < pairs.len() ==> (#[trigger] pairs[a]).0 != (#[trigger] pairs[b]).0,
+    ensures
+        map_of_pairs(pairs).contains_key(pairs[i].0) && map_of_pairs(pairs)[pairs[i].0] == pairs[i].1,
+    decreases pairs.len()
+{
+    if i < pairs.len() - 1 {
+        assert forall|a: int, b: int| 0 <= a < b < pairs.drop_last().len() implies (#[trigger] pairs.drop_last()[a]).0 != (#[trigger] pairs.drop_last()[b]).0 by {
+            assert(pairs.drop_last()[a] == pairs[a] && pairs.drop_last()[b] == pairs[b]);
+        }
+        lemma_map_of_pairs_value(pairs.drop_last(), i);
+        assert(pairs.drop_last()[i] == pairs[i]);
+        assert(pairs[i].0 != pairs[pairs.len() - 1].0);
+    }
+}
+
+//@ extract fn src/algorithms/centrality/degree.rs degree_centrality props=C09,C20
+//@ rewrite
+-> HashMap<T, f64>
+//@ with
+-> (r: HashMap<T, f64>)
+//@ rewrite
+return graph
+            .get_all_nodes()
+            .iter()
+            .map(|n|
+//@ with
+let all_v1 = graph.get_all_nodes();
+        let ghost av1 = all_v1@;
+        let one_fn = |n: &&Arc<Node<T, A>>| -> (o: (T, f64)) ensures o.0 == n.name, o.1 == 1.0f64 {
+//@ rewrite
+)
+            .collect();
+    }
+//@ with
+ };
+        let out1 = viter_map_collect_map(all_v1, one_fn);
+        proof {
+            let pairs = choose|pairs: Seq<(T, f64)>| pairs.len() == av1.len() && (forall|i: int| 0 <= i < av1.len() ==> call_ensures(one_fn, (&av1[i],), #[trigger] pairs[i]))
+                && out1@ == map_of_pairs(pairs);
+            assert forall|k: T| #[trigger] out1@.contains_key(k) <==> graph.knows(k) by {
+                lemma_map_of_pairs_keys(pairs, k);
+                if graph.knows(k) {
+                    let i = graph.nodes_map@[k] as int;
+                    assert(call_ensures(one_fn, (&av1[i],), pairs[i]));
+                    assert(pairs[i].0 == k);
+                }
+                if out1@.contains_key(k) {
+                    let i = choose|i: int| 0 <= i < pairs.len() && (#[trigger] pairs[i]).0 == k;
+                    assert(call_ensures(one_fn, (&av1[i],), pairs[i]));
+                }
+            }
+            assert forall|k: T| #[trigger] out1@.contains_key(k) implies out1@[k] == 1.0f64 by {
+                // at most one node: the only pair is pair 0
+                let i = graph.nodes_map@[k] as int;
+                assert(i == 0 && pairs.len() == 1);
+                assert(call_ensures(one_fn, (&av1[0],), pairs[0]));
+                assert(pairs.drop_last() =~= Seq::<(T, f64)>::empty());
+                assert(map_of_pairs(pairs) == map_of_pairs(pairs.drop_last()).insert(pairs[0].0, pairs[0].1));
+            }
+            assert(degree_centrality_map(*graph, out1@));
+        }
+        return out1;
+    }
+//@ rewrite
+(num_nodes as f64 - 1.0)
+//@ with
+(vcast_usize_f64(num_nodes) - 1.0)
+//@ rewrite
+    graph
+        .get_all_nodes()
+        .iter()
+        .map(|n| {
+//@ with
+    let all_v = graph.get_all_nodes();
+    let ghost av = all_v@;
+    let cent_fn = |n: &&Arc<Node<T, A>>| -> (o: (T, f64))
+        requires graph.knows(n.name), graph.wf_nodes(), graph.wf_estore(), graph.wf_index_sets(), graph.wf_name_sets(), graph.wf_name_store(), name_order_total::<T>(),
+        ensures o.0 == n.name, exists|d: usize| #[trigger] is_degree_of(*graph, n.name, d) && o.1 == fmul(usize_to_f64(d), s),
+    {
+//@ rewrite
+* s,
+            )
+        })
+        .collect()
+//@ with
+* s,
+            )
+        };
+    let out = viter_map_collect_map(all_v, cent_fn);
+    proof {
+        let pairs = choose|pairs: Seq<(T, f64)>| pairs.len() == av.len() && (forall|i: int| 0 <= i < av.len() ==> call_ensures(cent_fn, (&av[i],), #[trigger] pairs[i]))
+            && out@ == map_of_pairs(pairs);
+        assert forall|a: int, b: int| 0 <= a < b < pairs.len() implies (#[trigger] pairs[a]).0 != (#[trigger] pairs[b]).0 by {
+            assert(call_ensures(cent_fn, (&av[a],), pairs[a]) && call_ensures(cent_fn, (&av[b],), pairs[b]));
+            assert(graph.nodes_map@[graph.nodes_vec@[a].name] == a && graph.nodes_map@[graph.nodes_vec@[b].name] == b);
+        }
+        assert forall|k: T| #[trigger] out@.contains_key(k) <==> graph.knows(k) by {
+            lemma_map_of_pairs_keys(pairs, k);
+            if graph.knows(k) {
+                let i = graph.nodes_map@[k] as int;
+                assert(call_ensures(cent_fn, (&av[i],), pairs[i]));
+                assert(pairs[i].0 == k);
+            }
+            if out@.contains_key(k) {
+                let i = choose|i: int| 0 <= i < pairs.len() && (#[trigger] pairs[i]).0 == k;
+                assert(call_ensures(cent_fn, (&av[i],), pairs[i]));
+            }
+        }
+        assert forall|k: T| #[trigger] out@.contains_key(k) implies exists|d: usize| #[trigger] is_degree_of(*graph, k, d)
+                && out@[k] == fmul(usize_to_f64(d), fdiv(1.0f64, fsub(usize_to_f64(graph.n() as usize), 1.0f64))) by {
+            let i = graph.nodes_map@[k] as int;
+            assert(call_ensures(cent_fn, (&av[i],), pairs[i]));
+            lemma_map_of_pairs_value(pairs, i);
+        }
+        assert(degree_centrality_map(*graph, out@));
+    }
+    out
+//@ rewrite
+graph.get_node_degree(n.name.clone()).unwrap() as f64
+//@ with
+vcast_usize_f64(graph.get_node_degree(n.name.clone()).unwrap())
+//@ spec
+    requires
+        graph.wf_nodes(), graph.wf_estore(),
+        graph.wf_index_sets(), graph.wf_name_sets(), graph.wf_name_store(),
+        name_order_total::<T>(),
+    ensures
+        // [C09.degree_centrality.one_entry_per_node_degree_over_n_minus_1]
+        degree_centrality_map(*graph, r@),
+//@ end
